@@ -531,18 +531,18 @@ fn c16_parse_multiplicative() {
 }
 
 
-// Unary level -- NOT RUN (registered for no tier; kept for the record).  Measured:
+// Unary level.  Run for ONE prefix operator (3 harnesses); the 9 two-operator harnesses are registered for no tier.
+// Measured on the way:
 //   * operator bytes symbolic, unwind 4..6: no result in 900 s even for one operator.  parse_unary recurses into itself
 //     (real code, fallible) from three call sites; CBMC merges the three return paths, after which the input length is
 //     a symbolic if-then-else and every later level is explored for all three operators again (3^depth instances);
-//   * operator run concrete per harness (below), digit and following byte symbolic, unwind 6: same (the digit byte
-//     is symbolic, so "is it another operator?" is still open at every level): TIMEOUT at 900 s;
-//   * the same with CBMC's recursion bound for parse_unary alone set to N+1 (`--cbmc-args --unwindset
-//     <mangled parse_unary>:2`; the recursion unwinding assertion is then *proved* unreachable from the digit
-//     assumption): one operator verifies, but takes 450-615 s and 6.5-7.9 M variables (1.3-1.5 M symex steps, not
-//     reduced by ManuallyDrop on the result, -Z restrict-vtable, or a smaller loop bound); two operators need
-//     13 instead of 4 instances of the body.  The driver has no per-harness CBMC arguments (the mangled name contains
-//     the crate hash), and only the two-operator harnesses would see `!!x`, so this was not taken further.
+//   * operator run concrete per harness (below), digit and following byte symbolic: same (the digit byte is symbolic,
+//     so "is it another operator?" is still open at every level): TIMEOUT at 900 s;
+//   * the same with CBMC's recursion bound for parse_unary ALONE set to N+1 (`recursion_bound` in props/C16.py ->
+//     `--cbmc-args --unwindset <mangled parse_unary>:2`, lib/driver.py recursion_unwindset).  The recursion unwinding
+//     assertion is then *proved* unreachable from the digit assumption, so nothing is cut silently.  One operator:
+//     ~240 s per harness at loop bound 4 (450-615 s at 6), 6.5 M variables.  Two operators need 13 instead of 4
+//     instances of the body; not run, so `!!x` collapsing to `x` is still not seen (DESIGN.md section 6).
 // parse_primary is replaced by the tagged atom stub like every other level.
 /// The run `A [B] <digit> <t>` must produce exactly the nest A(B(operand)) of LogicalNot / BitwiseNot / Negate nodes,
 /// outermost first, over an operand taken from the primary level, and leave `<t>` unconsumed -- in particular `!!x` is
@@ -551,20 +551,42 @@ fn parse_unary_seq<const A: u8, const B: u8>() {
     let d: u8 = kani::any();
     let t: u8 = kani::any();
     kani::assume(d >= b'0' && d <= b'9');
-    // natively the real parse_primary reads the operand: keep the byte after it out of the number (K/M suffix, digits)
-    let t = if under_kani() { t } else { b' ' };
     let n: usize = if B == 0 { 1 } else { 2 };
+    let ops = [A, B];
+    if !under_kani() {
+        // Native replay: the stubs do not exist, so the same operator run goes through the REAL, complete
+        // parse_expression as `A [B] d*3`; a unary operator binds tighter than `*`, so the tree must be
+        // Multiply(A(B(d)), 3).
+        let buf: [u8; 5] = if B == 0 { [A, d, b'*', b'3', b' '] } else { [A, B, d, b'*', b'3'] };
+        let mut input: &BStr = BStr::new(&buf[..n + 3]);
+        let r = std::mem::ManuallyDrop::new(parse_expression(&mut input));
+        let Ok(tree) = &*r else { return };
+        let Expression::Multiply(l, r3) = tree else {
+            panic!(
+                "end-to-end: `{}` is not parsed as (unary ...) * 3 by the complete parse_expression \
+                 [C16.parse unary operand comes from the primary level] \
+                 [C16.parse every written prefix operator becomes one node, outermost first] \
+                 [C16.parse unary level consumes its operators and one operand, nothing more]",
+                String::from_utf8_lossy(&buf[..n + 3])
+            );
+        };
+        assert!(leaf_value(r3) == Some(3), "C16.parse unary level consumes its operators and one operand, nothing more");
+        check_unary_nest(l, &ops, n, (d - b'0') as u64);
+        return;
+    }
     let buf: [u8; 4] = if B == 0 { [A, d, t, 0] } else { [A, B, d, t] };
     let mut input: &BStr = BStr::new(&buf[..n + 2]);
-    // ManuallyDrop: no drop glue for the result at all (dropping a `Result<Expression, _>` drags in the recursive
-    // 34-variant drop of `Expression`, unrolled to the unwind bound, on a path that never holds an `Expression`)
+    // ManuallyDrop: no drop glue for the result at all
     let r = std::mem::ManuallyDrop::new(parse_unary(&mut input));
     let Ok(tree) = &*r else {
         return;
     };
     kani::cover!(true, "accepted");
     assert!(input.len() == 1, "C16.parse unary level consumes its operators and one operand, nothing more");
-    let ops = [A, B];
+    check_unary_nest(tree, &ops, n, 16 * T_PRIMARY + (d & 15) as u64);
+}
+
+fn check_unary_nest(tree: &Expression<'_>, ops: &[u8; 2], n: usize, want: u64) {
     let mut node: &Expression<'_> = tree;
     let mut i = 0;
     while i < n {
@@ -578,14 +600,13 @@ fn parse_unary_seq<const A: u8, const B: u8>() {
         node = inner;
         i += 1;
     }
-    let want = if under_kani() { 16 * T_PRIMARY + (d & 15) as u64 } else { (d - b'0') as u64 };
     assert!(leaf_value(node) == Some(want), "C16.parse unary operand comes from the primary level");
 }
 
 macro_rules! unary_harness {
-    ($name:ident, $a:expr, $b:expr) => {
+    ($name:ident, $a:expr, $b:expr, $u:expr) => {
         #[kani::proof]
-        #[kani::unwind(6)]
+        #[kani::unwind($u)]
         #[kani::stub(under_kani, stub_under_kani)]
         #[kani::stub(parse_logical_or, stub_logical_or)]
         #[kani::stub(parse_logical_and, stub_logical_and)]
@@ -602,15 +623,15 @@ macro_rules! unary_harness {
         }
     };
 }
-unary_harness!(c16_parse_unary_not, b'!', 0);
-unary_harness!(c16_parse_unary_inv, b'~', 0);
-unary_harness!(c16_parse_unary_neg, b'-', 0);
-unary_harness!(c16_parse_unary_not_not, b'!', b'!');
-unary_harness!(c16_parse_unary_not_inv, b'!', b'~');
-unary_harness!(c16_parse_unary_not_neg, b'!', b'-');
-unary_harness!(c16_parse_unary_inv_not, b'~', b'!');
-unary_harness!(c16_parse_unary_inv_inv, b'~', b'~');
-unary_harness!(c16_parse_unary_inv_neg, b'~', b'-');
-unary_harness!(c16_parse_unary_neg_not, b'-', b'!');
-unary_harness!(c16_parse_unary_neg_inv, b'-', b'~');
-unary_harness!(c16_parse_unary_neg_neg, b'-', b'-');
+unary_harness!(c16_parse_unary_not, b'!', 0, 4);
+unary_harness!(c16_parse_unary_inv, b'~', 0, 4);
+unary_harness!(c16_parse_unary_neg, b'-', 0, 4);
+unary_harness!(c16_parse_unary_not_not, b'!', b'!', 5);
+unary_harness!(c16_parse_unary_not_inv, b'!', b'~', 5);
+unary_harness!(c16_parse_unary_not_neg, b'!', b'-', 5);
+unary_harness!(c16_parse_unary_inv_not, b'~', b'!', 5);
+unary_harness!(c16_parse_unary_inv_inv, b'~', b'~', 5);
+unary_harness!(c16_parse_unary_inv_neg, b'~', b'-', 5);
+unary_harness!(c16_parse_unary_neg_not, b'-', b'!', 5);
+unary_harness!(c16_parse_unary_neg_inv, b'-', b'~', 5);
+unary_harness!(c16_parse_unary_neg_neg, b'-', b'-', 5);
